@@ -12,7 +12,7 @@ for patch in sorted(glob.glob(os.path.join(src, "patch_*.diff"))):
     demo_dir = field("demo_dir").split()[0] if field("demo_dir") else ""
     tags = field("demo_tags", "none").split()[0]
     pkgs = field("test_pkgs", "./" + demo_dir + "/...")
-    pkgs = " ".join(p.rstrip(")`;") for p in re.split(r"[\s,()]+", pkgs) if p.startswith("./"))
+    pkgs = " ".join(p.rstrip(")`;") for p in re.split(r"[\s,()]+", pkgs) if p.startswith("./") and p.rstrip(")`;") != "./...")
     if demo_dir.startswith("tools/god"):
         pkgs = "./util/format/ ./util/stringx/ ./config/"
     cmd = ["/verif/tools/seedeval.py", pid, patch, os.path.join(src, "demo_%s_test.go" % n), demo_dir, pkgs]
